@@ -476,6 +476,17 @@ def message_named_like_module(a):
 
 
 @edit
+def nested_field_named_like_module(a):
+    """A *nested* message whose first field is named like a sibling types module (stickers.proto -> `stickers`) and whose
+    second field needs that module again: the module has to be imported under an alias."""
+    f = file('acme/lib/v1/stickers.proto', P, messages=[message('Tag', [field('t', 1, 'string')]), message('Label', [field('l', 1, 'string')])])
+    a.add_file_before(f)
+    a.msg(message('Crate', [field('name', 1, 'string'), field('slot', 2, Q('Crate.Slot'))],
+                  nested=[message('Slot', [field('stickers', 1, Q('Tag')), field('label', 2, Q('Label'))])]))
+    a.rpc(method('GetCrate', Q('GetBookRequest'), Q('Crate'), http=('get', '/v1/{name=crates/*}')))
+
+
+@edit
 def same_basename_imports(a):
     f1 = file('acme/lib/v1/common.proto', P, messages=[message('LocalCommon', [field('x', 1, 'string')])])
     a.add_file_before(f1)
@@ -519,6 +530,16 @@ def repeated_map_signature(a):
                                    field('kinds', 6, 'enum:' + Q('Kind'), repeated=True)], nested=[me, me2]))
     a.rpc(method('Batch', Q('BatchRequest'), Q('ListBooksResponse'), http=('post', '/v1/{parent=shelves/*}:batch', '*'),
                  sigs=['parent,names,attrs', 'books,books_by_id,kinds']))
+
+
+@edit
+def flattened_map_value_other_file(a):
+    """A flattened map field whose value message is declared in another file of the API and used nowhere else in the service."""
+    f = file('acme/lib/v1/pins.proto', P, messages=[message('Pin', [field('at', 1, 'string')])])
+    a.add_file_before(f)
+    mf, me = map_field(Q('PinRequest'), 'pins_by_id', 2, 'string', Q('Pin'))
+    a.msg(message('PinRequest', [field('parent', 1, 'string'), mf], nested=[me]))
+    a.rpc(method('PinBooks', Q('PinRequest'), Q('Book'), http=('post', '/v1/{parent=shelves/*}:pin', '*'), sigs=['parent,pins_by_id']))
 
 
 @edit
